@@ -14,6 +14,7 @@ mod guard;
 mod ops_c04;
 mod ops_acc;
 mod ops_codec;
+mod ops_dyn;
 mod ops_frame;
 mod ops_io;
 mod ops_schema;
@@ -49,6 +50,9 @@ fn eval_line(ctx: &mut Ctx, line: &str) -> String {
     };
     let args = &xs[1..];
     if let Some(a) = ops_codec::eval(ctx, &op, args) {
+        return a;
+    }
+    if let Some(a) = ops_dyn::eval(ctx, &op, args) {
         return a;
     }
     if let Some(a) = ops_c14::eval(ctx, &op, args) {
@@ -95,6 +99,8 @@ fn main() {
                 "C15" => ops_schema::gen_c15(&mut r, thorough, &mut out),
                 "C19" => ops_schema::gen_c19(&mut r, thorough, &mut out),
                 "C11" => ops_io::gen_c11(&mut r, thorough, &mut out),
+                "C17" => ops_dyn::gen_c17(&mut r, thorough, &mut out),
+                "C18" => ops_dyn::gen_c18(&mut r, thorough, &mut out),
                 "C14" => ops_c14::gen_c14(&mut r, thorough, &mut out),
                 "C12" => ops_maxsize::gen_c12(&mut r, thorough, &mut out),
                 "C13" => ops_maxsize::gen_c13(&mut r, thorough, &mut out),
